@@ -844,7 +844,10 @@ func sizes(thorough bool) []int {
 		ns = append(ns, n)
 	}
 	if thorough {
-		ns = append(ns, 13, 14, 15, 16, 17, 20, 24, 25, 26, 31, 32, 33, 48, 49, 50, 51, 52, 64, 75, 98, 99, 100, 101, 102, 120)
+		for n := 13; n <= 40; n++ {
+			ns = append(ns, n)
+		}
+		ns = append(ns, 44, 48, 49, 50, 51, 52, 60, 64, 70, 75, 80, 90, 98, 99, 100, 101, 102, 110, 120)
 	}
 	return ns
 }
@@ -853,7 +856,7 @@ func Run(o *core.Options) int {
 	r := core.NewReport(o, "exploration",
 		"For every data-set size n of the bound, both backends (memory, SQLite) and EVERY page size 1..min(n+2,100) plus 'not given', continuation tokens are followed through the public Server API for Read (no key and 7 tuple-key filters, two stores: write-only and with deletes), ReadChanges (no type / doc / group / unknown type), ListStores (no name / two names / unknown name) and ReadAuthorizationModels until the documented end signal; the concatenation is compared with the harness's own list. Then: every issued ReadChanges token is replayed with every other type filter; crafted decoded values {'', -1, 0, 1, abc, huge, MaxInt64, n, n+1, n+7} are sent bare and inside the backend's serializer envelope; for selected n every single-character substitution and every truncation of two issued tokens per query. A case = one complete token walk. Non-trivial = a walk over more than one page (distinct by backend, query, n, page size) or an accepted/rejected forged token class.")
 	r.Assume(
-		"bound: n in 0..12 (quick), additionally 13..17,20,24..26,31..33,48..52,64,75,98..102,120 (thorough); n = number of tuples = number of changelog entries = number of models = number of stores",
+		"bound: n in 0..12 (quick), additionally 13..40,44,48..52,60,64,70,75,80,90,98..102,110,120 (thorough); n = number of tuples = number of changelog entries = number of models = number of stores",
 		"page sizes above 100 are rejected by API validation for all four APIs, so 'every page size' = 1..min(n+2,100) and the default (50)",
 		"end signal as documented in the API descriptions: Read/ListStores/ReadAuthorizationModels 'The continuation token will be empty if there are no more ...'; ReadChanges 'If there are no changes after the provided continuation token, the same token will be returned', 'If the store never had any tuples added or removed, this token will be empty'",
 		"order: changes in commit order (items of one Write call in any order), models newest first (reverse creation order), stores ascending by id; Read: no documented order => multiset",
@@ -900,7 +903,7 @@ func Run(o *core.Options) int {
 	var jobs []job
 	for _, n := range sizes(o.Thorough()) {
 		for _, b := range []string{"memory", "sqlite"} {
-			jobs = append(jobs, job{b, n, n == 5 || (o.Thorough() && (n == 12 || n == 33 || n == 101))})
+			jobs = append(jobs, job{b, n, n == 5 || (o.Thorough() && (n == 12 || n == 33 || n == 50 || n == 101))})
 		}
 	}
 	// largest first for balance
